@@ -581,23 +581,42 @@ def get_app_pending_mutations(app, evolution_labels=[], mutations=None,
         # A model that one of these mutations renames a changed model to
         # is that same changed model, under its new name. Mutations that
         # follow the rename refer to it by that name.
+        #
+        # A rename of a model this signature never had (for instance, a
+        # model that's kept in another database) has nothing to rename
+        # here, and is left out like any other mutation on such a model.
+        known_models = set(
+            old_model_sig.model_name
+            for old_model_sig in old_app_sig.model_sigs
+        )
+        skipped_renames = set()
+
         for mutation in mutations:
-            if (isinstance(mutation, RenameModel) and
-                mutation.old_model_name in changed_models):
-                changed_models.add(mutation.new_model_name)
+            if isinstance(mutation, RenameModel):
+                if mutation.old_model_name in changed_models:
+                    changed_models.add(mutation.new_model_name)
+
+                if mutation.old_model_name in known_models:
+                    known_models.discard(mutation.old_model_name)
+                    known_models.add(mutation.new_model_name)
+                else:
+                    skipped_renames.add(id(mutation))
 
         # We should now have a full list of which models changed. Filter
         # the list of mutations appropriately.
         #
         # Changes affecting a model that was newly-introduced are removed,
-        # unless the mutation is a RenameModel, in which case we'll need it
-        # during the optimization step (and will remove it if necessary then).
+        # unless the mutation is a RenameModel of a model we know, in which
+        # case we'll need it during the optimization step (and will remove
+        # it if necessary then).
         mutations = [
             mutation
             for mutation in mutations
-            if (not hasattr(mutation, 'model_name') or
-                mutation.model_name in changed_models or
-                isinstance(mutation, RenameModel))
+            if ((isinstance(mutation, RenameModel) and
+                 id(mutation) not in skipped_renames) or
+                (not isinstance(mutation, RenameModel) and
+                 (not hasattr(mutation, 'model_name') or
+                  mutation.model_name in changed_models)))
         ]
 
     return mutations
